@@ -14,9 +14,11 @@ func fnWatch(ctx *cmdContext, args map[string]any) (output respValue, err error)
 	}
 
 	ids := ctx.dsc.getIds(keyStrs...)
+	ctx.cs.mu.Lock()
 	for idx, id := range ids {
 		ctx.cs.watches[watchKey{ds: ctx.dsc.ds, key: keyStrs[idx]}] = id
 	}
+	ctx.cs.mu.Unlock()
 
 	output.data = rstrOK
 	return
@@ -24,7 +26,7 @@ func fnWatch(ctx *cmdContext, args map[string]any) (output respValue, err error)
 
 func fnUnwatch(ctx *cmdContext, args map[string]any) (output respValue, err error) {
 	// clear out watch map
-	ctx.cs.watches = map[watchKey]uint64{}
+	ctx.cs.clearWatches()
 	output.data = rstrOK
 	return
 }
@@ -36,14 +38,28 @@ func fnDiscard(ctx *cmdContext, args map[string]any) (output respValue, err erro
 	}
 
 	// clear out watch map and discard multi command queue
-	ctx.cs.watches = map[watchKey]uint64{}
+	ctx.cs.clearWatches()
 	ctx.cs.cmdQueue = nil
 	output.data = rstrOK
 	return
 }
 
+// CLIENT LIST looks at the watches of other connections, so the map is guarded by cs.mu
+func (cs *clientState) clearWatches() {
+	cs.mu.Lock()
+	cs.watches = map[watchKey]uint64{}
+	cs.mu.Unlock()
+}
+
 func isAbortedExecUnlocked(cs *clientState) bool {
+	cs.mu.Lock()
+	watches := make(map[watchKey]uint64, len(cs.watches))
 	for watch, id := range cs.watches {
+		watches[watch] = id
+	}
+	cs.mu.Unlock()
+
+	for watch, id := range watches {
 		// caller holds exclusive lock, so go directly to the data store for this check
 		if watch.ds.hasChangedUnlocked(watch.key, id) {
 			return true
@@ -69,7 +85,7 @@ func fnExec(ctx *cmdContext, args map[string]any) (output respValue, err error) 
 	// check the watches; if anything has changed, return null
 	if isAbortedExecUnlocked(ctx.cs) {
 		// the transaction is over either way: back to normal mode, nothing watched
-		ctx.cs.watches = map[watchKey]uint64{}
+		ctx.cs.clearWatches()
 		ctx.cs.cmdQueue = nil
 		return
 	}
@@ -84,7 +100,7 @@ func fnExec(ctx *cmdContext, args map[string]any) (output respValue, err error) 
 	}
 
 	// reset multi state and return the results
-	ctx.cs.watches = map[watchKey]uint64{}
+	ctx.cs.clearWatches()
 	ctx.cs.cmdQueue = nil
 	output.data = nativeArrayToResp(results)
 	return
